@@ -127,6 +127,11 @@ def real_oracle(prog, res):
         if out[0] == "ret" and (out[1] == ["done", f"t{i}"] or out[1] == ["slept", f"t{i}"]):
             continue           # resolved with its own value in the meantime
         v.append(("unfinished_future_without_shutdown_error", f"task {i} ({spec}) was {st} at the call and ended with {out}"))
+    if m["call_s"] > 30 and not m["end_markers"]:
+        # every task body / nested task / helper of the generated programs lasts 60-90 s; the call on the unchanged tree takes
+        # well under a second (a few seconds on a loaded machine): half a minute means it waited for something to end by itself
+        v.append(("forced_shutdown_not_prompt", f"the call took {m['call_s']:.1f} s: it waited for nested tasks / descendants "
+                  f"(60-90 s long) instead of killing them"))
     if res["survivors"]:
         v.append(("process_survives_forced_shutdown", f"{len(res['survivors'])} of {res['n_pids']} recorded processes of the tree are still "
                   f"alive after the call: {res['survivor_kinds']}"))
